@@ -227,7 +227,39 @@ fn dfs_second_goal_cond(q: PTerm) -> PGoal {
     })
 }
 
+fn dfs_nested_brackets(q: PTerm) -> PGoal {
+    proto_vulcan!(dfs { [true, [member(q, [3, 1, 2]), member(q, [1, 2, 3])]] })
+}
+
+fn dfs_nested_brackets_deep(q: PTerm) -> PGoal {
+    proto_vulcan!(dfs { |x| { [x == 1, [member(q, [5, 6]), [member(q, [6, 5, 4]), q != 4]]] } })
+}
+
+fn matcha_alternation(q: PTerm) -> PGoal {
+    proto_vulcan!(|x| {
+        x == [5],
+        matcha x {
+            [] | [_] => member(q, [1, 2]),
+            _ => q == 0,
+        }
+    })
+}
+
 // ---------------------------------------------------------------------------------- C06
+fn match_alternation(q: PTerm) -> PGoal {
+    proto_vulcan!(|x| {
+        member(x, [[], [1], [1, 2]]),
+        match x {
+            [] | [_] => member(q, [1, 2, 1]),
+            [_, _] => q == 0,
+        }
+    })
+}
+
+fn nested_brackets(q: PTerm) -> PGoal {
+    proto_vulcan!(|x, y| { [member(x, [1, 2]), [member(y, [3, 4]), x != 2], project |x, y| { combine(x, y, q) }] })
+}
+
 fn inner_false_clause(q: PTerm) -> PGoal {
     proto_vulcan!(|y| { conde { [y == 0, q == 4], [conde { false, q == 5 }] } })
 }
@@ -301,6 +333,11 @@ pub fn corpus() -> Vec<Entry> {
         e("dfs-nested-cond", "C05", true, dfs_nested, &[1, 2, 3, 4, 5, 6]),
         e("dfs-match-arms", "C05", true, dfs_match, &[1, 2, 3, 0]),
         e("dfs-cond-as-second-goal", "C05", true, dfs_second_goal_cond, &[11, 5, 5, 22]),
+        e("dfs-nested-brackets", "C05", true, dfs_nested_brackets, &[3, 1, 2]),
+        e("dfs-nested-brackets-deep", "C05", true, dfs_nested_brackets_deep, &[5, 6]),
+        e("matcha-alternation-arm", "C08", false, matcha_alternation, &[1, 2]),
+        e("match-alternation-arm", "C06", false, match_alternation, &[0, 1, 1, 1, 1, 2, 2]),
+        e("nested-brackets", "C06", false, nested_brackets, &[13, 14]),
         e("inner-conde-false-clause", "C06", false, inner_false_clause, &[4, 5]),
         e("inner-conde-true-clause", "C06", false, inner_true_clause, &[4, 5, 5]),
         e("fallthrough-clauses", "C06", false, fallthrough_clauses, &[0, 0, 0, 10, 20]),
